@@ -6,10 +6,16 @@ import CosetProofs.Cbor.Head
 namespace Coset.Cbor
 open Coset
 
+/-- `tag t v` is a bignum tag over a short byte string: the form ciborium's parser folds on sight, without entering the tagged item
+    (so without consuming a unit of its recursion budget). -/
+def foldedTag (t : Nat) : Value → Bool
+  | .bytes b => (t == 2 || t == 3) && decide (b.length ≤ 16)
+  | _ => false
+
 mutual
-/-- recursion budget a value needs: arrays, maps and tags each consume one unit. -/
+/-- recursion budget a value needs: arrays, maps and tags each consume one unit (a folded bignum tag consumes none). -/
 def depthOf : Value → Nat
-  | .tag _ v => depthOf v + 1
+  | .tag t v => if foldedTag t v then 0 else depthOf v + 1
   | .array xs => depthOfL xs + 1
   | .map kvs => depthOfP kvs + 1
   | _ => 0
@@ -40,9 +46,33 @@ end
 def SmallBignum (t : Nat) (v : Value) : Prop :=
   (t = 2 ∨ t = 3) ∧ ∃ b, v = .bytes b ∧ b.length ≤ 16
 
+theorem foldedTag_iff (t : Nat) (v : Value) : foldedTag t v = true ↔ SmallBignum t v := by
+  cases v <;> simp [foldedTag, SmallBignum]
+
+theorem depthOf_tag_of_not_small (t : Nat) (v : Value) (h : ¬ SmallBignum t v) : depthOf (.tag t v) = depthOf v + 1 := by
+  have : foldedTag t v = false := by
+    cases hf : foldedTag t v with
+    | false => rfl
+    | true => exact absurd ((foldedTag_iff t v).mp hf) h
+  simp [depthOf, this]
+
+theorem depthOf_tag_le (t : Nat) (v : Value) : depthOf (.tag t v) ≤ depthOf v + 1 := by
+  simp only [depthOf]; split <;> omega
+
+theorem depthOf_le_of_tag (t : Nat) (v : Value) : depthOf v ≤ depthOf (.tag t v) := by
+  simp only [depthOf]
+  split
+  · next h => obtain ⟨_, b, rfl, _⟩ := (foldedTag_iff t v).mp h; simp [depthOf]
+  · omega
+
+/-- a bignum tag in the one form ciborium itself produces and reproduces: the minimal big-endian bytes of a magnitude that does not
+    fit 64 bits (and, for tag 3, whose value `-1 - n` fits `i128`).  The parser folds it and `From<u128/i128>` writes it back unchanged. -/
+def CanonBig (t : Nat) (v : Value) : Prop :=
+  ∃ raw, 2 ^ 64 ≤ raw ∧ (t = 2 → raw < 2 ^ 128) ∧ (t = 3 → raw < 2 ^ 127) ∧ v = .bytes (minBytes raw)
+
 mutual
 /-- values the parser can return from the serializer's output: CBOR integer range, valid UTF-8,
-    lengths and tags below 2^64, no foldable bignum tag. -/
+    lengths and tags below 2^64, no foldable bignum tag other than a canonical big one. -/
 def Normal : Value → Prop
   | .int n => -(2 ^ 64 : Int) ≤ n ∧ n < 2 ^ 64
   | .bytes b => b.length < 2 ^ 64
@@ -50,7 +80,7 @@ def Normal : Value → Prop
   | .float _ => True
   | .bool _ => True
   | .null => True
-  | .tag t v => t < 2 ^ 64 ∧ ¬ SmallBignum t v ∧ Normal v
+  | .tag t v => t < 2 ^ 64 ∧ (SmallBignum t v → CanonBig t v) ∧ Normal v
   | .array xs => xs.length < 2 ^ 64 ∧ NormalL xs
   | .map kvs => kvs.length < 2 ^ 64 ∧ NormalP kvs
 def NormalL : List Value → Prop
@@ -209,17 +239,41 @@ theorem parse_enc_aux : ∀ fuel,
       | tag t w =>
         simp only [Normal] at hn
         obtain ⟨ht, hsb, hw⟩ := hn
-        simp only [depthOf] at hd
         simp only [nsize] at hs
         simp only [enc, List.append_assoc]
         rw [parse, pull_encHead 6 _ (by omega) ht]
         simp only [hdOf]
-        have hd0 : d ≠ 0 := by omega
-        have ih := ihv w (d - 1) s hw (by omega) (by omega)
+        have hdn : ¬ SmallBignum t w → d ≠ 0 ∧ parse fuel (d - 1) (enc w ++ s) = .ok (w, s) := by
+          intro hns
+          rw [depthOf_tag_of_not_small t w hns] at hd
+          exact ⟨by omega, ihv w (d - 1) s hw (by omega) (by omega)⟩
         by_cases h23 : t = 2 ∨ t = 3
-        · have hp := pull_enc_not_small_bytes w hw s (fun ⟨b, hb, hl⟩ => hsb ⟨h23, b, hb, hl⟩)
-          simp [h23, hp, hd0, ih]
-        · simp [h23, hd0, ih]
+        · by_cases hsm : ∃ b, w = .bytes b ∧ b.length ≤ 16
+          · -- a canonical big bignum: folded by the parser, rebuilt identically by `From<u128>` / `From<i128>`
+            obtain ⟨raw, h64, h2, h3, hw'⟩ := hsb ⟨h23, hsm⟩
+            subst hw'
+            have h128 : raw < 2 ^ 128 := by
+              rcases h23 with h | h
+              · exact h2 h
+              · have := h3 h; omega
+            have hlen := minBytes_length_le raw h128
+            have hpk : smallBytesPeek (enc (.bytes (minBytes raw)) ++ s) = some ((minBytes raw).length, minBytes raw ++ s) := by
+              simp only [enc, List.append_assoc, smallBytesPeek]
+              rw [pull_encHead 2 _ (by omega) (by omega)]
+              simp [hdOf, hlen]
+            simp only [h23, if_true, hpk]
+            have hnl : ¬ (minBytes raw ++ s).length < (minBytes raw).length := by simp
+            simp only [hnl, if_false, List.take_left', List.drop_left', beVal_minBytes raw h128]
+            rcases h23 with h | h
+            · subst h; simp [fromU128, show ¬ raw < 2 ^ 64 by omega]
+            · subst h
+              have := h3 rfl
+              simp [fromNegU128, show ¬ raw ≥ 2 ^ 127 by omega, show ¬ raw < 2 ^ 64 by omega]
+          · have hp := pull_enc_not_small_bytes w hw s hsm
+            obtain ⟨hd0, ih⟩ := hdn (fun h => hsm h.2)
+            simp [h23, hp, hd0, ih]
+        · obtain ⟨hd0, ih⟩ := hdn (fun h => h23 h.1)
+          simp [h23, hd0, ih]
       | array xs =>
         simp only [Normal] at hn
         simp only [depthOf] at hd
